@@ -47,6 +47,7 @@ def ccs(cs):
 # model is evaluated on the scaled image.  SCALE["k"] is set when an original image is generated and is valid for
 # everything derived from it (entries of derived affines are integer combinations of the original's).
 SCALE = {"k": 0}
+MAG_COUNTS = {}   # magnitude label -> number of original images / maps generated with it
 MAG_OF = {}      # id(original image) -> magnitude label (for buckets / replays)
 MAG_EXPS_TINY = [-17, -20, -22]
 MAG_EXPS_HUGE = [10, 18]
@@ -112,7 +113,14 @@ def apply_magnitudes(rng, A, p=0.4):
                     L[zr[q], zc[q]] = float(rng.choice([-3, -1, 1, 2])) * t
     set_scale(A)
     SCALE["mag"] = kind
+    MAG_COUNTS[kind] = MAG_COUNTS.get(kind, 0) + 1
     return A, kind
+
+
+def tinyz():
+    """nipy's absolute zero tolerance TINY (orth_axes) at the current scale: floor(TINY * 2**k), exactly"""
+    import nipy.core.reference.coordinate_map as cmod
+    return int(Fraction(*float(cmod.TINY).as_integer_ratio()) * (1 << SCALE["k"]))
 
 
 def mag_suffix():
@@ -1129,9 +1137,9 @@ def section_image_list(ck, rng):
                             k = max(len(dpairs) - 1, 0)
                             dp = dpairs[k] if dpairs else (None, None)
                             kind = "IAxis" if isinstance(e, AxisError) else "IValue"
-                            terms.append("list_item_agrees %s %s %s %s %s (%s, %s) (IErr %s)" % (
+                            terms.append("list_item_agrees %s %s %s %s %s (%s, %s) %s (IErr %s)" % (
                                 cimg(img), copt(in_ax, cnat), copt(out_ax, cnat), cbool(dropout), cnat(k),
-                                copt(dp[0], cnat), copt(dp[1], cnat), kind))
+                                copt(dp[0], cnat), copt(dp[1], cnat), cz(tinyz()), kind))
                             metas.append({"image": rimg(img), "axis": axis, "dropout": dropout, "element": k, "impl": repr(e)})
                             ck.count(("ilist", c, axis, dropout), nontrivial=False, bucket="image_list:refused")
                         else:
@@ -1162,9 +1170,9 @@ def section_image_list(ck, rng):
                         if not (isinstance(el, Image) and is_int_array(el.affine)):
                             continue
                         dp = dpairs[k] if (dropped is not None and k < len(dpairs)) else (None, None)
-                        terms.append("list_item_agrees %s %s %s %s %s (%s, %s) (IOk %s)" % (
+                        terms.append("list_item_agrees %s %s %s %s %s (%s, %s) %s (IOk %s)" % (
                             cimg(img), copt(in_ax, cnat), copt(out_ax, cnat), cbool(dropout), cnat(k),
-                            copt(dp[0], cnat), copt(dp[1], cnat), cimg(el)))
+                            copt(dp[0], cnat), copt(dp[1], cnat), cz(tinyz()), cimg(el)))
                         metas.append({"image": rimg(img), "axis": axis, "dropout": dropout, "element": k, "style": style, "impl": rimg(el)})
                         ck.count(("ilist", c, axis, dropout, k), nontrivial=True, bucket="image_list:%s:element%s" % (feat, "0" if k == 0 else ">0"))
     if ck.build.ok:
@@ -1297,6 +1305,9 @@ def run(ck):
     guarded(ck, "image_list", section_image_list, ck.rng("imagelist"))
     guarded(ck, "as_xyz", section_as_xyz, ck.rng("asxyz"))
     guarded(ck, "programs", section_programs, ck.rng("programs"))
+    ck.section("value-magnitudes", originals_by_kind=dict(sorted(MAG_COUNTS.items())),
+               note="rows / columns / offsets of the integer affines multiplied by 2**e, e in %r and %r; compared exactly after "
+                    "scaling the reference coordinates by a power of two" % (MAG_EXPS_TINY, MAG_EXPS_HUGE))
     ck.trust.append("oracles: NumPy basic indexing and np.transpose (modelled by NdIndex.gather along explicit index maps; sampled on every case); "
                     "nibabel.io_orientation (its output column, recorded from the running call, is an argument of the model's rollimg/"
                     "iter_axis/as_xyz_image); spaces.xyz_affine / xyz_order outcomes are arguments of the model's as_xyz_image")
